@@ -181,30 +181,28 @@ theorem labels_precedence (fs : FS) (discard : Bool) (s s' : Service)
 
 /-! ## missing files -/
 
-/-- **missing_required_err.**  If the env files before `f` load and `f` is missing and required,
-    environment resolution fails with "not found" (whatever follows). -/
+/-- **missing_required_err.**  If the env files before `f` load and nothing exists at `f`'s path (the path is absent
+    or lies under a regular file) while `f` is required, environment resolution fails with "not found", whatever follows. -/
 theorem missing_required_err (penv : List (Key × Str)) (fs : FS) (discard : Bool) (s : Service)
     (pre post : List EnvFile) (f : EnvFile) (acc : List (Key × Str))
     (hs : s.envFiles = pre ++ f :: post) (hpre : loadEnvFiles penv fs pre [] = .ok acc)
-    (hm : fs f.path = none) (hr : f.required = true) :
+    (hm : Missing fs f.path) (hr : f.required = true) :
     resolveServiceEnv penv fs discard s = .error .notFound := by
   unfold resolveServiceEnv
   rw [hs, loadEnvFiles_append, hpre]
-  simp [loadEnvFiles, loadEnvFile, hm, hr]
+  simp [loadEnvFiles, loadEnvFile_missing fs f _ hm, hr]
 
 /-- a required env file at whose path nothing exists is always an error (of some class), whatever else is listed -/
 theorem missing_required_is_error (penv : List (Key × Str)) (fs : FS) (discard : Bool) (s : Service)
     (f : EnvFile) (hf : f ∈ s.envFiles) (hm : Missing fs f.path) (hr : f.required = true) :
     ∃ e, resolveServiceEnv penv fs discard s = .error e := by
   obtain ⟨pre, post, hs⟩ := List.append_of_mem hf
-  unfold resolveServiceEnv
-  rw [hs, loadEnvFiles_append]
-  cases loadEnvFiles penv fs pre [] with
-  | error e => exact ⟨e, rfl⟩
-  | ok acc =>
-    rcases hm with hm | hm
-    · exact ⟨.notFound, by simp [loadEnvFiles, loadEnvFile, hm, hr]⟩
-    · exact ⟨.read, by simp [loadEnvFiles, loadEnvFile, loadMappingFile, hm]⟩
+  cases hpre : loadEnvFiles penv fs pre [] with
+  | error e =>
+    refine ⟨e, ?_⟩
+    unfold resolveServiceEnv
+    rw [hs, loadEnvFiles_append, hpre]
+  | ok acc => exact ⟨.notFound, missing_required_err penv fs discard s pre post f acc hs hpre hm hr⟩
 
 /-- success implies that every env file at whose path nothing exists was marked not required -/
 theorem ok_implies_required_present (penv : List (Key × Str)) (fs : FS) (discard : Bool) (s s' : Service)
@@ -217,35 +215,34 @@ theorem ok_implies_required_present (penv : List (Key × Str)) (fs : FS) (discar
     rw [he] at h
     cases h
 
-/-- **missing_optional_skipped_partial.**  A missing env file marked not required contributes nothing: the result is
-    the one obtained without listing it (only the reference itself differs).  *Partial*: "missing" is `fs f.path = none`
-    (`os.Stat` says ENOENT); for a path under a regular file (ENOTDIR) the full statement is false
-    (`Neg.missing_optional_skipped_false`). -/
-theorem missing_optional_skipped_partial (penv : List (Key × Str)) (fs : FS) (pre post : List EnvFile) (f : EnvFile)
-    (acc : List (Key × Str)) (hm : fs f.path = none) (hr : f.required = false) :
+/-- **missing_optional_skipped.**  An env file marked not required at whose path nothing exists (absent, or under a
+    regular file) contributes nothing: the result is the one obtained without listing it (only the reference itself
+    differs).  Full strength since the `fix:` commit; the pre-fix loader violated it (`Neg.missing_optional_skipped_false_pre`). -/
+theorem missing_optional_skipped (penv : List (Key × Str)) (fs : FS) (pre post : List EnvFile) (f : EnvFile)
+    (acc : List (Key × Str)) (hm : Missing fs f.path) (hr : f.required = false) :
     loadEnvFiles penv fs (pre ++ f :: post) acc = loadEnvFiles penv fs (pre ++ post) acc := by
   rw [loadEnvFiles_append, loadEnvFiles_append]
   cases loadEnvFiles penv fs pre acc with
   | error e => rfl
-  | ok acc' => simp [loadEnvFiles, loadEnvFile, hm, hr, overrideBy]
+  | ok acc' => simp [loadEnvFiles, loadEnvFile_missing fs f _ hm, hr, overrideBy]
 
-theorem missing_optional_skipped_service_partial (penv : List (Key × Str)) (fs : FS) (discard : Bool) (s : Service)
+/-- the same in the form of `Neg.MissingOptionalSkipped`, the statement the pre-fix loader falsified -/
+theorem missing_optional_skipped_full : Neg.MissingOptionalSkipped loadEnvFiles :=
+  fun penv fs pre post f acc hm hr => missing_optional_skipped penv fs pre post f acc hm hr
+
+theorem missing_optional_skipped_service (penv : List (Key × Str)) (fs : FS) (discard : Bool) (s : Service)
     (pre post : List EnvFile) (f : EnvFile) (hs : s.envFiles = pre ++ f :: post)
-    (hm : fs f.path = none) (hr : f.required = false) :
+    (hm : Missing fs f.path) (hr : f.required = false) :
     (resolveServiceEnv penv fs discard s).map (·.environment) =
       (resolveServiceEnv penv fs discard { s with envFiles := pre ++ post }).map (·.environment) := by
   unfold resolveServiceEnv
-  rw [hs, missing_optional_skipped_partial penv fs pre post f [] hm hr]
+  rw [hs, missing_optional_skipped penv fs pre post f [] hm hr]
   simp only
   cases loadEnvFiles penv fs (pre ++ post) [] <;> rfl
 
-/-- the negation of the full-strength statement is proved in `Neg/C16.lean` (replayed on the real code on every run) -/
-theorem missing_optional_skipped_full_is_false : ¬ Neg.MissingOptionalSkipped :=
-  Neg.missing_optional_skipped_false
-
-/-- a missing label file is always an error (there is no `required` flag for label files) -/
+/-- a label file at whose path nothing exists is always an error (there is no `required` flag for label files) -/
 theorem missing_label_file_err (fs : FS) (discard : Bool) (s : Service) (p : Str) (hp : p ∈ s.labelFiles)
-    (hm : fs p = none) : ∃ e, resolveServiceLabels fs discard s = .error e := by
+    (hm : Missing fs p) : ∃ e, resolveServiceLabels fs discard s = .error e := by
   have key : ∀ (paths : List Str) (acc : List (Key × Str)), p ∈ paths → ∃ e, loadLabelFiles fs paths acc = .error e := by
     intro paths
     induction paths with
@@ -258,7 +255,8 @@ theorem missing_label_file_err (fs : FS) (discard : Bool) (s : Service) (p : Str
       | ok vars =>
         rcases List.mem_cons.1 hmem with e | hmem'
         · subst e
-          simp [loadLabelFile, hm] at hl
+          rw [loadLabelFile_missing fs p _ hm] at hl
+          cases hl
         · exact ih _ hmem'
   obtain ⟨e, he⟩ := key s.labelFiles [] hp
   exact ⟨e, by simp [resolveServiceLabels, he]⟩
@@ -432,15 +430,15 @@ example : Distinct s0.labels ∧ ∃ s', resolveServiceLabels fs0 false s0 = .ok
   decide
 
 /-- hypotheses of `missing_required_err`: the files before the missing required one load -/
-example : ∃ acc, loadEnvFiles penv0 fs0 [⟨['f', '1'], true, []⟩] [] = .ok acc ∧ fs0 ['f', '3'] = none :=
-  ⟨_, rfl, by decide⟩
+example : ∃ acc, loadEnvFiles penv0 fs0 [⟨['f', '1'], true, []⟩] [] = .ok acc ∧ Missing fs0 ['f', '3'] :=
+  ⟨_, rfl, Or.inl (by decide)⟩
 
 example : resolveServiceEnv penv0 fs0 false { s0 with envFiles := [⟨['f', '1'], true, []⟩, ⟨['f', '3'], true, []⟩] } = .error .notFound := rfl
 
-/-- hypotheses of `missing_optional_skipped_partial` -/
+/-- hypotheses of `missing_optional_skipped` (ENOENT kind; the ENOTDIR kind is `Neg.witness_missing`) -/
 example : fs0 ['f', '3'] = none ∧ (⟨['f', '3'], false, []⟩ : EnvFile).required = false := by decide
 
-/-- hypotheses of `missing_required_is_error` with the ENOTDIR kind of missing -/
+/-- hypotheses of `missing_optional_skipped` / `missing_required_err` with the ENOTDIR kind of missing -/
 example : Missing Neg.witnessFS Neg.witnessFile.path := Neg.witness_missing.1
 
 /-- hypotheses of `missing_label_file_err` -/
